@@ -58,13 +58,21 @@ class Grammar(qc.QGrammar):
                 return None
             t = P.tok()
             P.op(ctx, "suspend", a=s, b=t, src=s, thread=ctx)
+            newclock = 0
             if P.sources[s]["tq"] == 0 and (b >> 2) % 4:
                 # quiesce: a handler invocation that was already committed when dispatch_suspend was called may start arbitrarily later (it is the
                 # "one item already committed"); an empty dispatch_sync on the SERIAL target queue returns only after it has finished
                 oq = P.op(ctx, "sync", a=0, thread=ctx)
                 P.features.add("resettle-quiesced")
+                # only here may the new settings be expressed on another clock (uptime / wall / monotonic): with the source suspended and its serial
+                # target queue quiesced no handler invocation is in flight, so every later invocation reads the new clock against the new settings
+                if (b >> 4) % 2:
+                    newclock = 1 + (b >> 5) % 3
+                    P.features.add("clock-switched" if newclock - 1 != P.sources[s].get("curclock", P.sources[s]["clock"]) else "clock-restated")
             P.op(ctx, "sleep", a=[20, 200, 1200][b % 3])
-            o = P.op(ctx, "settimer", a=s, b=STARTS_NS[2 + c % 6], c=INTERVALS_NS[(c >> 3) % 7], d=0, src=s, thread=ctx)
+            o = P.op(ctx, "settimer", a=s, b=STARTS_NS[2 + c % 6], c=INTERVALS_NS[(c >> 3) % 7], d=0, e=newclock, src=s, thread=ctx)
+            if newclock:
+                P.sources[s]["curclock"] = newclock - 1      # "clock" stays the clock the source is created with
             P.op(ctx, "resume", a=s, b=t, src=s, thread=ctx)
             P.features.add("settings-replaced-while-suspended")
             if P.sources[s]["a"] == FAR_NS:
@@ -233,7 +241,7 @@ class Check(sc.SCheck):
             "built); the fires reported so far never exceed the interval boundaries passed; one-shot timers report <= 1; after-blocks run exactly once; the harness blocks "
             "until every armed, uncancelled timer has fired, so a timer that never fires is a stuck witness. Non-trivial: >= 8 timers armed and a re-arm / cancel / "
             "replacement happened among them (part 2) or >= 8 records armed with a removal/update among them (part 1); distinct = distinct program texts / op sequences.")
-    assumptions = ["the timer clock is not stepped during a run; cross-thread clock comparisons carry a 20 us coherence tolerance in multi-CPU runs, none in single-CPU runs", "settings replaced from a foreign thread while the source is not suspended are not judged (an invocation already committed may legally follow the old ones); when they are replaced while suspended, the first invocation afterwards is only judged if the owner quiesced the serial target queue with an empty dispatch_sync after the suspend (the one invocation already committed may otherwise start arbitrarily late)"]
+    assumptions = ["the timer clock is not stepped during a run; cross-thread clock comparisons carry a 20 us coherence tolerance in multi-CPU runs, none in single-CPU runs", "a timer's settings move to another clock only while it is suspended and its serial target queue has been quiesced, so no invocation can read the new clock against old settings", "settings replaced from a foreign thread while the source is not suspended are not judged (an invocation already committed may legally follow the old ones); when they are replaced while suspended, the first invocation afterwards is only judged if the owner quiesced the serial target queue with an empty dispatch_sync after the suspend (the one invocation already committed may otherwise start arbitrarily late)"]
     G = Grammar()
 
     def pre_run(self, rep, tier, seed):
